@@ -46,18 +46,29 @@ func (g *Gen) Predef(cids []string) map[string]map[uint16]string {
 		return m
 	}
 	names := []string{"pre/1", "pre/2", "pre/3", "pre/x/y"}
-	all := map[uint16]string{}
-	for i := 0; i < int(g.Range(1, 3)); i++ {
-		all[uint16(g.Range(1, 6))] = names[g.Intn(len(names))]
+	// within one map every name appears at most once: Go map iteration order in GetTopicID (N7)
+	// would otherwise make the id the gateway picks for a name differ between executions.
+	draw := func(maxID int64) map[uint16]string {
+		mm := map[uint16]string{}
+		perm := []int{0, 1, 2, 3}
+		for i := 3; i > 0; i-- {
+			j := g.Intn(i + 1)
+			perm[i], perm[j] = perm[j], perm[i]
+		}
+		n := int(g.Range(1, 3))
+		for i := 0; i < n; i++ {
+			id := uint16(g.Range(1, maxID))
+			if _, dup := mm[id]; dup {
+				continue
+			}
+			mm[id] = names[perm[i]]
+		}
+		return mm
 	}
-	m["*"] = all
+	m["*"] = draw(6)
 	for _, c := range cids {
 		if g.Bool(0.5) {
-			cm := map[uint16]string{}
-			for i := 0; i < int(g.Range(1, 3)); i++ {
-				cm[uint16(g.Range(1, 8))] = names[g.Intn(len(names))]
-			}
-			m[c] = cm
+			m[c] = draw(8)
 		}
 	}
 	return m
